@@ -160,11 +160,16 @@ def parse_defines(clause):
 
 def prepare_attributes(attrs, dyn_attributes, i18n_attributes,
                        ns_attributes, drop_ns):
-    drop = {attribute['name']
-            for attribute, (ns, value) in zip(attrs, ns_attributes)
-            if ns in drop_ns or (
+    # Note that ``ns_attributes`` can't be paired with ``attrs`` by
+    # position: repeated attributes share one key, and converted
+    # data attributes are no longer in ``attrs``.
+    drop = set()
+    for attribute in attrs:
+        ns = attribute.get('namespace')
+        if ns in drop_ns or (
                 ns == XMLNS_NS and
-                attribute['value'] in drop_ns)}
+                attribute['value'] in drop_ns):
+            drop.add(attribute['name'])
 
     attributes = []
     normalized = {}
